@@ -12,6 +12,7 @@ static int call_ (int t, const char *op) {
 	pboolean r;
 	VTM ("\"e\":\"call\",\"t\":%d,\"op\":\"%s\"", t, op);
 	if (!strcmp (op, "lock")) r = p_mutex_lock (mx);
+	else if (!strcmp (op, "try")) r = p_mutex_trylock (mx);
 	else if (!strcmp (op, "unlock")) r = p_mutex_unlock (mx);
 	else if (!strcmp (op, "wait")) r = p_cond_variable_wait (cv, mx);
 	else if (!strcmp (op, "signal")) r = p_cond_variable_signal (cv);
@@ -98,13 +99,23 @@ int main (int argc, char **argv) {
 			vtm_barrier ();
 			/* wait until every waiter has announced (under the mutex) that it is about to wait; acquiring the mutex
 			 * afterwards orders us after its atomic release-and-block */
-			for (;;) { int n; call_ (0, "lock"); n = p_atomic_int_get (&inwait); call_ (0, "unlock"); if (n == nw) break; sched_yield (); }
+			/* odd rounds take the mutex with trylock only (a blocking lock/unlock by this thread could hide a mutex that
+			 * wait did not really release); a trylock that keeps failing for 3 s while nobody can legitimately hold
+			 * the mutex is reported as TryStarved */
+			{ int tries = 0;
+			  for (;;) {
+				int n = -1;
+				if (r & 1) { if (call_ (17, "try")) { n = p_atomic_int_get (&inwait); call_ (17, "unlock"); } else { struct timespec ts = { 0, 1000000 }; nanosleep (&ts, NULL); if (++tries > 3000) { VTM ("\"e\":\"TryStarved\",\"t\":17"); stuck_exit (); } } }
+				else { call_ (17, "lock"); n = p_atomic_int_get (&inwait); call_ (17, "unlock"); }
+				if (n == nw) break;
+				sched_yield ();
+			  } }
 			if (bcast) {
-				call_ (0, "lock"); call_ (0, "broadcast"); call_ (0, "unlock");
+				call_ (17, "lock"); call_ (17, "broadcast"); call_ (17, "unlock");
 				if (!wait_returned (nw)) stuck_exit ();
 			} else {
 				for (i = 1; i <= nw; i++) {
-					call_ (0, "lock"); call_ (0, "signal"); call_ (0, "unlock");
+					call_ (17, "lock"); call_ (17, "signal"); call_ (17, "unlock");
 					if (!wait_returned (i)) stuck_exit ();
 				}
 			}
